@@ -295,3 +295,62 @@ Section Miter.
       rewrite (map_nth_error _ _ _ (nth_error_combine _ _ _ _ _ Hbl Hbr)). simpl. rewrite Hd. reflexivity.
   Qed.
 End Miter.
+
+(* ------------------------------------------------------------------ *)
+(* the assignments of l and r that correspond to an assignment a of the miter inputs:
+   input x of l reads ln@x; the i-th input of r reads what the i-th input of l reads *)
+Definition miter_left_assignment (ln : label) (a : assignment) (l : circuit) : assignment :=
+  map (fun x => (x, aval a ((ln ++ "@") ++ x)%string)) (inputs l).
+Definition miter_right_assignment (ln : label) (a : assignment) (l r : circuit) : assignment :=
+  combine (inputs r) (map (fun x => aval a ((ln ++ "@") ++ x)%string) (inputs l)).
+
+Lemma miter_left_assignment_ok ln a l x :
+  In x (inputs l) -> aval (miter_left_assignment ln a l) x = aval a ((ln ++ "@") ++ x)%string.
+Proof. intros Hx. unfold aval at 1, miter_left_assignment. rewrite (dget_map_pair _ _ _ Hx). reflexivity. Qed.
+
+Lemma miter_right_assignment_ok ln a l r i x y :
+  WF r -> nth_error (inputs l) i = Some x -> nth_error (inputs r) i = Some y ->
+  aval (miter_right_assignment ln a l r) y = aval a ((ln ++ "@") ++ x)%string.
+Proof.
+  intros Wr Hx Hy. unfold aval at 1, miter_right_assignment.
+  rewrite (dget_combine_nth (inputs r) _ i y (aval a ((ln ++ "@") ++ x)%string) (wf_inputs_nodup r Wr) Hy).
+  - reflexivity.
+  - apply (map_nth_error (fun x0 => aval a ((ln ++ "@") ++ x0)%string)), Hx.
+Qed.
+
+(* the headline form *)
+Theorem build_miter_true_iff_differ l r ln rn m :
+  WF l -> WF r -> arity_ok l -> arity_ok r -> ln <> "" -> rn <> "" -> outputs l <> [] ->
+  build_miter l r ln rn = Ok m ->
+  forall a, (forall x, In x (inputs m) -> aval a x <> U) ->
+    (exists b, Eval m a "big_or" (inj b)) /\
+    (Eval m a "big_or" T <->
+     exists i o_l o_r vl vr,
+       nth_error (outputs l) i = Some o_l /\ nth_error (outputs r) i = Some o_r /\
+       Eval l (miter_left_assignment ln a l) o_l vl /\
+       Eval r (miter_right_assignment ln a l r) o_r vr /\ vl <> vr).
+Proof.
+  intros Wl Wr Al Ar Hln Hrn Hne Hm a Htot.
+  destruct (build_miter_correct l r ln rn m Wl Wr Hln Hrn Hm) as (_ & Hi & _ & Hsem).
+  destruct (Hsem Hne Al Ar a (miter_left_assignment ln a l) (miter_right_assignment ln a l r))
+    as (b & Hb & Hiff).
+  - intros x Hx. apply Htot. rewrite Hi. apply in_map, Hx.
+  - intros x Hx. apply miter_left_assignment_ok, Hx.
+  - intros i x y Hx Hy. eapply miter_right_assignment_ok; eassumption.
+  - split; [exists b; exact Hb|]. rewrite <- Hiff. split.
+    + intros HT. pose proof (Eval_functional _ _ _ _ _ Hb HT) as E. destruct b; [reflexivity|discriminate].
+    + intros ->. exact Hb.
+Qed.
+
+(* executable arity check, for concrete examples *)
+Definition arity_okb (c : circuit) : bool :=
+  forallb (fun kg : label * gate =>
+             gtype_beq (gtyp (snd kg)) INPUT || den_accepts (gtyp (snd kg)) (length (gops (snd kg))))
+          (gates c).
+
+Lemma arity_okb_sound c : arity_okb c = true -> arity_ok c.
+Proof.
+  unfold arity_okb; rewrite forallb_forall. intros H l g Hg Ht.
+  specialize (H (l, g) (dget_In _ _ _ Hg)); simpl in H. apply orb_true_iff in H.
+  destruct H as [H|H]; [apply gtype_beq_eq in H; contradiction|exact H].
+Qed.
